@@ -43,7 +43,9 @@ def main():
             rc, out = sh(c)
             if rc != 0:
                 return ("build-failed", out[-1500:], c)
-            rc, out = sh("timeout 300 " + exe)
+            # sanitizer options the author set on the run line of run.sh (e.g. ASAN_OPTIONS=detect_leaks=0) are kept
+            envs = " ".join(sorted(set(re.findall(r"\b((?:ASAN|TSAN|UBSAN|LSAN)_OPTIONS=(?:\"[^\"]*\"|'[^']*'|\S+))", run_sh))))
+            rc, out = sh("%s timeout 300 %s" % (envs, exe))
             return (rc, out[-1500:], c)
         before = demo("before")
         ran.append({"step": "demo on the unchanged tree", "cmd": before[2], "exit": before[0]})
